@@ -67,6 +67,7 @@ func (p Parser) HandleRawSQLQuery(sql string) (normalizedQuery, redactedQuery st
 
 	// redact and mask VALUES
 	Normalize(stmt, bv, ValueMask)
+	maskRemainingLiterals(stmt)
 
 	return normalizedQ, String(stmt), outputStmt, nil
 }
